@@ -243,6 +243,16 @@ def router_rules(chk):
         from ..core import module_lookup
         it = module_lookup(define, it.id) or it
     ok_libs = isinstance(it, (ast.List, ast.Tuple)) and sorted(x.value for x in it.elts if isinstance(x, ast.Constant)) == ["quanto", "quanto_ext", "quanto_py"]
+    if not libs:
+        # the loop over a literal is unrolled at load time: one torch.library.define per library name
+        import re
+        names = []
+        for n in ast.walk(define):
+            if isinstance(n, ast.Call) and U(n.func) == "torch.library.define" and n.args:
+                m_ = re.match(r"^f?['\"](quanto(?:_py|_ext)?)::", U(n.args[0]))
+                if m_:
+                    names.append(m_.group(1))
+        ok_libs = sorted(names) == ["quanto", "quanto_ext", "quanto_py"]
     chk.require("C04.R6", f"{mi.rel}:{define.lineno}", ok_libs, "define() declares the op in quanto, quanto_py and quanto_ext", "define", "three libraries", "an op without a python or extension slot")
     _, impls = library(repo)
     n = 0
